@@ -199,8 +199,6 @@ enum Step {
     Msg,
     NeedMore,
     Error(String),
-    /// a finding inside the step already ended the delivery
-    Abort,
 }
 
 trait Side {
@@ -286,10 +284,6 @@ fn run_stream<S: Side>(side: &mut S, input: &[u8], cuts: &[usize]) -> Trace {
             match step {
                 Step::Panic(p, what) => {
                     tr.findings.push(panic_finding(what, &p, &snapshot.get()));
-                    tr.term = Term::Stopped;
-                    break 'deliver;
-                }
-                Step::Abort => {
                     tr.term = Term::Stopped;
                     break 'deliver;
                 }
